@@ -24,6 +24,135 @@ def _constish(e):
     return isinstance(e, ast.Constant) or (isinstance(e, ast.UnaryOp) and isinstance(e.op, ast.USub) and isinstance(e.operand, ast.Constant))
 
 
+_PURE_NODES = (ast.Constant, ast.Name, ast.Attribute, ast.Subscript, ast.Compare, ast.BoolOp, ast.BinOp, ast.UnaryOp, ast.Tuple, ast.IfExp,
+               ast.Load, ast.Store, ast.operator, ast.unaryop, ast.boolop, ast.cmpop, ast.Slice, ast.expr_context)
+
+
+def _own_nodes(fn):
+    """nodes of fn's own scope (nested defs / lambdas / comprehensions excluded)"""
+    stack = list(ast.iter_child_nodes(fn))
+    while stack:
+        n = stack.pop()
+        yield n
+        if isinstance(n, (ast.FunctionDef, ast.AsyncFunctionDef, ast.ClassDef, ast.Lambda, ast.ListComp, ast.SetComp, ast.DictComp, ast.GeneratorExp)):
+            continue
+        stack.extend(ast.iter_child_nodes(n))
+
+
+def _propagate_temps(fn):
+    """A local that is assigned exactly once, from an expression without calls, and only read afterwards inside the block it is defined in,
+    is a name for that expression: its reads are replaced by the expression and the assignment is dropped (`due = a <= b; if due:` is
+    `if a <= b:`), provided no operand is re-bound between the definition and a read.  Attribute / subscript operands are accepted only on
+    names bound by `except ... as` (exception objects) or when every read is in the statement that directly follows the definition."""
+    params = {a.arg for a in fn.args.posonlyargs + fn.args.args + fn.args.kwonlyargs}
+    if fn.args.vararg:
+        params.add(fn.args.vararg.arg)
+    if fn.args.kwarg:
+        params.add(fn.args.kwarg.arg)
+    nodes = list(_own_nodes(fn))
+    if any(isinstance(n, (ast.Global, ast.Nonlocal)) for n in nodes):
+        return
+    # names also touched in nested scopes are left alone
+    nested = {m.id for n in ast.walk(fn) if isinstance(n, (ast.Lambda, ast.ListComp, ast.SetComp, ast.DictComp, ast.GeneratorExp, ast.FunctionDef, ast.AsyncFunctionDef))
+              and n is not fn for m in ast.walk(n) if isinstance(m, ast.Name)}
+    stores = {}
+    for n in nodes:
+        if isinstance(n, ast.Name) and isinstance(n.ctx, (ast.Store, ast.Del)):
+            stores.setdefault(n.id, []).append(n)
+        elif isinstance(n, ast.ExceptHandler) and n.name:
+            stores.setdefault(n.name, []).append(n)
+    excnames = {n.name for n in nodes if isinstance(n, ast.ExceptHandler) and n.name}
+
+    def blocks(node):
+        for fld in ("body", "orelse", "finalbody"):
+            b = getattr(node, fld, None)
+            if isinstance(b, list) and b and isinstance(b[0], ast.stmt):
+                yield b
+        for h in getattr(node, "handlers", []) or []:
+            yield h.body
+
+    def all_blocks(node):
+        for b in blocks(node):
+            yield b
+            for st in b:
+                if not isinstance(st, (ast.FunctionDef, ast.AsyncFunctionDef, ast.ClassDef)):
+                    yield from all_blocks(st)
+
+    for blk in list(all_blocks(fn)):
+        i = 0
+        while i < len(blk):
+            st = blk[i]
+            i += 1
+            if not (isinstance(st, ast.Assign) and len(st.targets) == 1 and isinstance(st.targets[0], ast.Name)):
+                continue
+            name = st.targets[0].id
+            if name in params or name in nested or len(stores.get(name, [])) != 1 or name in excnames:
+                continue
+            val = st.value
+            if isinstance(val, (ast.Constant, ast.Name)) or not all(isinstance(x, _PURE_NODES) for x in ast.walk(val)):
+                continue        # constants / plain aliases carry meaning for the rules (flags, markers); calls are not pure
+            later = blk[blk.index(st) + 1:]
+            uses = [x for n_ in later for x in ast.walk(n_) if isinstance(x, ast.Name) and x.id == name and isinstance(x.ctx, ast.Load)]
+            alluses = [x for x in nodes if isinstance(x, ast.Name) and x.id == name and isinstance(x.ctx, ast.Load)]
+            if not uses or len(uses) != len(alluses) or len(uses) > 4:
+                continue
+            ops = {x.id for x in ast.walk(val) if isinstance(x, ast.Name)}
+            last = max(u.lineno for u in uses)
+            if any(s_.lineno > st.lineno and s_.lineno <= last for o in ops for s_ in stores.get(o, []) if hasattr(s_, "lineno")):
+                continue
+            attrs = [x for x in ast.walk(val) if isinstance(x, (ast.Attribute, ast.Subscript))]
+            if attrs:
+                bases = set()
+                for x in attrs:
+                    b_ = x
+                    while isinstance(b_, (ast.Attribute, ast.Subscript)):
+                        b_ = b_.value
+                    bases.add(b_.id if isinstance(b_, ast.Name) else None)
+                nxt = later[0] if later else None
+                in_next_header = nxt is not None and all(any(u is x for x in ast.walk(_header(nxt))) for u in uses)
+                if not (bases <= excnames or in_next_header):
+                    continue
+            # substitute
+            class R(ast.NodeTransformer):
+                def visit_Name(self, n):
+                    if n.id == name and isinstance(n.ctx, ast.Load):
+                        return _clone(val)
+                    return n
+            for n_ in later:
+                R().visit(n_)
+            blk.remove(st)
+            i -= 1
+            if not blk:
+                blk.append(ast.copy_location(ast.Pass(), st))
+
+
+def _clone(e):
+    """structural copy of a (pure) expression; much cheaper than copy.deepcopy"""
+    if isinstance(e, list):
+        return [_clone(x) for x in e]
+    if not isinstance(e, ast.AST):
+        return e
+    new = type(e)()
+    for k, v in e.__dict__.items():
+        if k == "_parent":
+            continue
+        setattr(new, k, _clone(v) if isinstance(v, (ast.AST, list)) else v)
+    return new
+
+
+def _header(st):
+    """the part of a statement that is evaluated before any nested block runs"""
+    if isinstance(st, (ast.If, ast.While)):
+        return st.test
+    if isinstance(st, (ast.For, ast.AsyncFor)):
+        return st.iter
+    if isinstance(st, (ast.With, ast.AsyncWith)):
+        return ast.Tuple(elts=[i.context_expr for i in st.items], ctx=ast.Load())
+    if isinstance(st, ast.Try):
+        return ast.Constant(value=None)
+    return st
+
+
 class _Canon(ast.NodeTransformer):
     """Shape canonicalisation applied to every module before any rule sees it, so that rules do not depend on which of two equivalent
     spellings the author chose (all are pure syntax, no evaluation order changes for the operands involved):
@@ -32,8 +161,79 @@ class _Canon(ast.NodeTransformer):
       * `<const> OP x`         ->  `x OP' <const>`     (OP in < <= > >= == !=; constants have no side effects)
     Line numbers of the surviving nodes are those of the source."""
 
+    def _in_loop(self, node):
+        return False        # nested blocks: only the return/raise form is applied (loop membership is not tracked below the loop body)
+
+    @staticmethod
+    def _jumps(block, kinds):
+        return bool(block) and isinstance(block[-1], kinds)
+
+    def _guards(self, body, in_loop):
+        """structured form of guard clauses inside one statement list:
+             if c: X; continue        (no else)   + REST   ->  if c: X  else: REST          (loop bodies only)
+             try: T except E: H; continue         + REST   ->  try: T except E: H else: REST   (loop bodies only; no else/finally before)
+        `continue` as the last statement of a loop body is then redundant and dropped."""
+        out = list(body)
+        i = 0
+        while i < len(out):
+            st = out[i]
+            rest = out[i + 1:]
+            if in_loop and rest and isinstance(st, ast.If) and not st.orelse and self._jumps(st.body, ast.Continue):
+                st.body = st.body[:-1] or [ast.copy_location(ast.Pass(), st)]
+                st.orelse = self._guards(rest, in_loop)
+                out = out[:i + 1]
+                break
+            # guard clause that leaves (return / raise / break): the rest is its else branch
+            if rest and isinstance(st, ast.If) and not st.orelse and self._jumps(st.body, (ast.Return, ast.Raise, ast.Break)) \
+                    and not (isinstance(st.body[-1], ast.Break) and not in_loop):
+                st.orelse = self._guards(rest, in_loop)
+                out = out[:i + 1]
+                break
+            if in_loop and rest and isinstance(st, ast.Try) and not st.orelse and not st.finalbody and st.handlers \
+                    and all(self._jumps(h.body, (ast.Continue, ast.Raise, ast.Return, ast.Break)) for h in st.handlers) \
+                    and any(self._jumps(h.body, ast.Continue) for h in st.handlers):
+                for h in st.handlers:
+                    if self._jumps(h.body, ast.Continue):
+                        h.body = h.body[:-1] or [ast.copy_location(ast.Pass(), h)]
+                st.orelse = self._guards(rest, in_loop)
+                out = out[:i + 1]
+                break
+            i += 1
+        if in_loop and len(out) > 1 and isinstance(out[-1], ast.Continue):
+            out = out[:-1]
+        return out
+
+    def _loop(self, node):
+        self.generic_visit(node)
+        node.body = self._guards(node.body, True)
+        # `while c: B; break` runs B at most once: it is `if c: B`
+        if isinstance(node, ast.While) and not node.orelse and self._jumps(node.body, ast.Break) and len(node.body) > 1 \
+                and not any(isinstance(x, (ast.Continue, ast.Break)) for st in node.body[:-1] for x in ast.walk(st)
+                            if not isinstance(x, (ast.For, ast.While))):
+            inner_loops = [x for st in node.body[:-1] for x in ast.walk(st) if isinstance(x, (ast.For, ast.While))]
+            if not inner_loops:
+                return ast.copy_location(ast.If(test=node.test, body=node.body[:-1], orelse=[]), node)
+        return node
+
+    def visit_For(self, node):
+        return self._loop(node)
+
+    def visit_While(self, node):
+        return self._loop(node)
+
+    def visit_FunctionDef(self, node):
+        self.generic_visit(node)
+        _propagate_temps(node)
+        node.body = self._guards(node.body, False)
+        return node
+
+    visit_AsyncFunctionDef = visit_FunctionDef
+
     def visit_If(self, node):
         self.generic_visit(node)
+        node.body = self._guards(node.body, self._in_loop(node))
+        if node.orelse:
+            node.orelse = self._guards(node.orelse, self._in_loop(node))
         if node.orelse and not (len(node.orelse) == 1 and isinstance(node.orelse[0], ast.If)) \
                 and isinstance(node.test, ast.UnaryOp) and isinstance(node.test.op, ast.Not):
             node.test, node.body, node.orelse = node.test.operand, node.orelse, node.body
